@@ -26,6 +26,10 @@ class Unsupported(Exception):
     pass
 
 
+class Mismatch(Exception):
+    pass
+
+
 def has_boolop(tree):
     return any(isinstance(n, ast.BoolOp) for n in ast.walk(tree))
 
@@ -85,52 +89,77 @@ def export(src):
     if max(texts.values(), default=0) >= 1000:
         return None, {"skipped": "too many texts"}
     rows = [[140], [141] + program]
-    for name, b in cfg.items():
-        r = [142, int(name), len(b.instructions)]
-        n = len(b.instructions)
-        for pos, i in enumerate(b.instructions):
-            is_test = pos == n - 1 and len(b.jump_targets) == 2
-            if id(i) in ids:
-                if isinstance(i, ast.Pass):
-                    kind = 2
-                elif isinstance(i, ast.Return):
-                    kind = 3
-                elif isinstance(i, ast.Break):
-                    kind = 4
-                elif isinstance(i, ast.Continue):
-                    kind = 5
-                elif isinstance(i, ast.expr):
-                    kind = 6                      # a bare expression: the test of an if / while
+
+    def encode(tag):
+        out = []
+        for name, b in cfg.items():
+            r = [tag, int(name), len(b.instructions)]
+            n = len(b.instructions)
+            for pos, i in enumerate(b.instructions):
+                key = id(i)
+                if key not in ids and isinstance(i, ast.Expr) and id(i.value) in ids:
+                    # a test that decides nothing any more, kept as an expression statement by prune_empty
+                    r += [6, ids[id(i.value)]]
+                    continue
+                if key in ids:
+                    if isinstance(i, ast.Pass):
+                        kind = 2
+                    elif isinstance(i, ast.Return):
+                        kind = 3
+                    elif isinstance(i, ast.Break):
+                        kind = 4
+                    elif isinstance(i, ast.Continue):
+                        kind = 5
+                    elif isinstance(i, ast.expr):
+                        kind = 6                      # a bare expression: the test of an if / while
+                    else:
+                        kind = 1
+                    r += [kind, ids[key]]
+                    continue
+                # not a node of the source: one of the statements generated for a for-loop
+                text = ast.unparse(i)
+                for slot, pat in GEN_PATTERNS:
+                    m = pat.match(text)
+                    if m:
+                        break
                 else:
-                    kind = 1
-                r += [kind, ids[id(i)]]
-                continue
-            # not a node of the source: one of the statements generated for a for-loop
-            text = ast.unparse(i)
-            for slot, pat in GEN_PATTERNS:
-                m = pat.match(text)
-                if m:
-                    break
-            else:
-                return None, {"model_mismatch": "unrecognised instruction %r in block %s" % (text, name)}
-            if slot == 0:
-                code = gen_id(0, int(m.group(1)), 0, tid(m.group(2)))
-            elif slot == 2:
-                code = gen_id(2, int(m.group(1)), tid(m.group(2)), 0)
-            elif slot in (3, 5):
-                code = gen_id(slot, int(m.group(2)), tid(m.group(1)), 0)
-            else:
-                code = gen_id(slot, 0, tid(m.group(1)), 0)
-            if slot == 4:
-                if not (isinstance(i, ast.Expr) and is_test):
-                    return None, {"model_mismatch": "sentinel test not last in block %s" % name}
-                r += [6, code]
-            else:
-                if not isinstance(i, ast.Assign):
-                    return None, {"model_mismatch": "generated statement is not an assignment: %r" % text}
-                r += [1, code]
-        r += [len(b.jump_targets)] + [int(x) for x in b.jump_targets]
-        rows.append(r)
+                    raise Mismatch("unrecognised instruction %r in block %s" % (text, name))
+                if slot == 0:
+                    code = gen_id(0, int(m.group(1)), 0, tid(m.group(2)))
+                elif slot == 2:
+                    code = gen_id(2, int(m.group(1)), tid(m.group(2)), 0)
+                elif slot in (3, 5):
+                    code = gen_id(slot, int(m.group(2)), tid(m.group(1)), 0)
+                else:
+                    code = gen_id(slot, 0, tid(m.group(1)), 0)
+                if slot == 4:
+                    if not isinstance(i, ast.Expr):
+                        raise Mismatch("sentinel test is not an expression statement in block %s" % name)
+                    r += [6, code]
+                else:
+                    if not isinstance(i, ast.Assign):
+                        raise Mismatch("generated statement is not an assignment: %r" % text)
+                    r += [1, code]
+            r += [len(b.jump_targets)] + [int(x) for x in b.jump_targets]
+            out.append(r)
+        return out
+
+    try:
+        rows += encode(142)
+        status = 0
+        try:
+            cfg.prune_unreachable()
+            cfg.prune_noops()
+            cfg.prune_empty()
+        except IndexError:
+            status = 1
+        if status == 0:
+            rows += encode(143)
+            rows.append([144, 0, int(next(iter(cfg)))])
+        else:
+            rows.append([144, 1, 0])
+    except Mismatch as e:
+        return None, {"model_mismatch": str(e)}
     text = "#s\n" + "\n".join(" ".join(map(str, r)) for r in rows) + "\n0\n"
     return text, {"blocks": len(cfg), "fors": sum(isinstance(n, ast.For) for n in ast.walk(fdef))}
 
